@@ -343,22 +343,60 @@ func checkC18(w *World, r *Report) {
 					}
 				}
 			case "NewVestingAccountFromVestingPool":
-				x := intOfAmountString(fs.Store.Val)
-				var inc ssa.Value
-				for _, fs2 := range FieldStores(f) {
-					if fs2.Field == "Sent" {
-						inc, _ = incrementOf(fs2)
+				// the operation: the function that books Sent; the event may be built there or in a helper the operation
+				// calls after the send (`k.recordVestingAccountFromPool(ctx, ..., amount, ...)`): the amount is then what the
+				// operation hands in, and the call stands where the event stood
+				type opSite struct {
+					fn *ssa.Function
+					x  ssa.Value
+					at ssa.Instruction
+				}
+				var lift func(fn *ssa.Function, x ssa.Value, at ssa.Instruction, depth int) []opSite
+				lift = func(fn *ssa.Function, x ssa.Value, at ssa.Instruction, depth int) []opSite {
+					for _, fs2 := range FieldStores(fn) {
+						if fs2.Field == "Sent" {
+							return []opSite{{fn, x, at}}
+						}
+					}
+					p, isP := x.(*ssa.Parameter)
+					callers := cg.Callers[fn]
+					if !isP || depth >= 2 || len(callers) == 0 {
+						return []opSite{{fn, x, at}}
+					}
+					idx := paramIndex(fn, p)
+					var out []opSite
+					for _, cs := range callers {
+						if cs.Common().IsInvoke() || cs.Static != fn || idx < 0 || idx >= len(cs.Common().Args) {
+							return []opSite{{fn, x, at}}
+						}
+						out = append(out, lift(cs.Caller, cs.Common().Args[idx], cs.Instr, depth+1)...)
+					}
+					return out
+				}
+				okAmount, okGuard := true, true
+				for _, o := range lift(f, intOfAmountString(fs.Store.Val), fs.Store, 0) {
+					var inc ssa.Value
+					for _, fs2 := range FieldStores(o.fn) {
+						if fs2.Field == "Sent" {
+							inc, _ = incrementOf(fs2)
+						}
+					}
+					if o.x == nil || o.x != inc {
+						okAmount = false
+					}
+					// emitted on success only
+					var creates []ssa.Value
+					for _, s := range cg.Sites[o.fn] {
+						if calleeIs(s, "x/cfevesting/keeper.Keeper.newVestingAccount") {
+							creates = append(creates, siteValue(s))
+						}
+					}
+					if !(len(creates) > 0 && OnSuccessEdge(o.fn, o.at, creates...)) {
+						okGuard = false
 					}
 				}
-				r.Check(x != nil && x == inc, "C18.amount", construct, pos, "Amount = String(value added to Sent)", "the event does not report the amount sent from the pool")
-				// emitted on success only
-				var creates []ssa.Value
-				for _, s := range cg.Sites[f] {
-					if calleeIs(s, "x/cfevesting/keeper.Keeper.newVestingAccount") {
-						creates = append(creates, siteValue(s))
-					}
-				}
-				r.Check(len(creates) > 0 && OnSuccessEdge(f, fs.Store, creates...), "C18.guard", construct+": only on success", pos, "built on the nil edge of the account creation's error", "the event can be emitted although the send failed")
+				r.Check(okAmount, "C18.amount", construct, pos, "Amount = String(value added to Sent)", "the event does not report the amount sent from the pool")
+				r.Check(okGuard, "C18.guard", construct+": only on success", pos, "built on the nil edge of the account creation's error", "the event can be emitted although the send failed")
 			case "NewVestingPool":
 				x := intOfAmountString(fs.Store.Val)
 				ok := false
@@ -721,4 +759,14 @@ func mustFollow(from, target *ssa.BasicBlock) bool {
 		stack = append(stack, b.Succs...)
 	}
 	return true
+}
+
+// paramIndex: the position of p among fn's parameters (-1 when it is not one of them).
+func paramIndex(fn *ssa.Function, p *ssa.Parameter) int {
+	for i, q := range fn.Params {
+		if q == p {
+			return i
+		}
+	}
+	return -1
 }
